@@ -102,9 +102,9 @@ def DumpClause (W : World) (T : Ty) (p node : PVal) : Prop :=
         ∧ q = PVal.ofVal .arg q.erase ∧ node ∈ q.nodes)
   ∨ (node.prov = .const ∧ ∃ name, node = PVal.node .const (.str name) [])
 
-/-- members a `Literal[...]` can have in the model (`Ty.literal`: None/bool/int/str) plus bytes -/
+/-- members a `Literal[...]` has in the model (`Ty.literal`: None/bool/int/str) -/
 def litScalar : Val → Bool
-  | .none | .bool _ | .int _ | .str _ | .bytes _ => true
+  | .none | .bool _ | .int _ | .str _ => true
   | _ => false
 
 end Adaptix.Morph
